@@ -1,5 +1,6 @@
 import HapModel.Model.Tabix
 import HapModel.Model.Scan
+import HapModel.Model.HapSort
 /-!
 # C11 — index keeps every record; indexed queries equal filtering a full read
 
@@ -44,5 +45,24 @@ theorem ids_only_query (ids recs : List String) (hids : ids.Nodup) (hrecs : recs
 example : (iterRegionG 1 (some 100) (some 200) none
     [⟨1, 100, 200, 0⟩, ⟨1, 120, 180, 1⟩, ⟨1, 200, 200, 2⟩, ⟨1, 150, 201, 3⟩, ⟨2, 100, 200, 4⟩, ⟨1, 99, 150, 5⟩]).map (·.id)
     = [0, 1, 2] := by decide
+
+/-- **`index` keeps every record**: `Haplotypes.sort()` only permutes the haplotype and repeat records – none is lost,
+    none duplicated – whatever the mix of H and R lines and whatever the contig names -/
+theorem sort_keeps_every_record (l : List HRec) : (sortH l).Perm l := sortH_perm l
+
+/-- the comparator shared by `Haplotype.__lt__` and `Repeat.__lt__` (chrom, start, end, ID) is a strict total order on
+    records with distinct IDs: irreflexive, transitive, and two records neither of which precedes the other agree
+    on all four keys -/
+theorem comparator_strict_total (a b c : HRec) :
+    hlt a a = false ∧ (hlt a b = true → hlt b c = true → hlt a c = true) ∧
+    (hlt a b = false → hlt b a = false → a.chrom = b.chrom ∧ a.start = b.start ∧ a.stop = b.stop ∧ a.id = b.id) :=
+  ⟨hlt_irrefl a, hlt_trans a b c, hlt_total a b⟩
+
+/-- **… ordered so that tabix accepts it**: the sorted H/R records are contig by contig with non-decreasing starts -/
+theorem sorted_records_tabix_ok (l : List HRec) : TabixOK ((sortH l).map toL) :=
+  Tabix.sorted_records_tabix_ok l
+
+/-- non-vacuity: contigs ranked 0 < 1, records interleaved; equal coordinates are ordered by ID -/
+example : (sortH [⟨1, 10, 20, 3⟩, ⟨0, 30, 40, 2⟩, ⟨1, 10, 20, 1⟩, ⟨0, 5, 50, 0⟩]).map (·.id) = [0, 2, 1, 3] := by decide
 
 end C11
